@@ -591,7 +591,12 @@ impl Arena {
       let next_node = next.load(Ordering::Acquire);
       let (next_node_size, next_next_offset) = decode_segment_node(next_node);
       if next_node_size == REMOVED_SEGMENT_NODE {
+        // the successor is being removed, so the predecessor word we hold is (about to be) stale:
+        // start over from the sentinel instead of re-reading the same successor for ever.
         backoff.snooze();
+        current = &header.sentinel;
+        current_node = current.load(Ordering::Acquire);
+        (current_node_size, next_offset) = decode_segment_node(current_node);
         continue;
       }
 
